@@ -52,6 +52,18 @@ FAMILIES = gens.FAMILIES
 
 K_FAR = 'C04:rotate:filtering-failed:box-origin-outside-first-cell'
 K_NEAR = 'C04:rotate:filtering-failed:atoms-within-tol-ladder-of-face'
+K_RUNG = 'C04:rotate:atom-exactly-on-tolerance-rung'
+
+
+def _atom_on_ladder_rung(res):
+    """some atom of the result has a box-relative coordinate within 1e-9 (relative) of 1e-4, 1e-5, 1e-6 or 1e-7 from a face:
+    there rotate()'s rounding of an atom and of its periodic image to the faces is decided by the last bits"""
+    sp = np.asarray(res.atoms_prop(key='pos', scale=True), dtype=float)
+    d = np.minimum(np.abs(sp), np.abs(1.0 - sp))
+    for rung in (1e-4, 1e-5, 1e-6, 1e-7):
+        if np.any(np.abs(d - rung) <= 1e-9 * rung):
+            return True
+    return False
 
 
 # ----------------------------------------------------------------------------- small exact helpers
@@ -594,7 +606,13 @@ def oracle_rotate(case):
             lambda: '%s: volume %.12g, expected |det| x original = %d x %.12g' % (what, vol, n, vol0))
     tol = match_tol(W, o, bo, res.atoms.pos)
     motif = cm.Motif(V, o, pos0, tol)
-    reading, rep = map_back(motif, snap, res, T, o, n, what)
+    try:
+        reading, rep = map_back(motif, snap, res, T, o, n, what)
+    except Violation as v:
+        if v.key is None and _atom_on_ladder_rung(res):
+            raise Violation(v.detail + ' [an atom lies exactly (to 1e-9 relative) one rung of rotate()\'s tolerance ladder '
+                            '1e-4..1e-7 from a face of the new cell]', key=K_RUNG)
+        raise
     labels.add('reading%d' % reading)
     if det < 0:
         labels.add('detneg')
